@@ -55,6 +55,8 @@ Arguments c11_exec {W O} step w ops.
 (* chunkSize_ = (N > 0) ? N : 1 ; the threshold 0 and the fallback 1 are re-read from arraylist.hh into Params_gen.v on every run *)
 Definition c11_cs (N : nat) : nat := if c11_param_al_chunk_threshold <? N then N else c11_param_al_min_chunk.
 
+Definition c11_size_t_mod : Z := 18446744073709551616%Z.      (* 2^64, written out so that the extracted model does not recompute the power *)
+
 Section AL.
   Variable T : Type.
   Variable d : T.              (* value of a value-initialised T (make_shared<std::array<T,N>>()) *)
@@ -157,7 +159,7 @@ Section AL.
   (* elementAt(size_type i) = list_->elementAt(i + position_): operator[](difference_type n) converts n to size_t, so a
      negative n wraps modulo 2^64 and the sum wraps back *)
   Definition c11_ali_index (s : c11_al) (p : nat) (n : Z) : c11_res T :=
-    c11_al_elementAt s (Z.to_nat (((n mod 2 ^ 64) + Z.of_nat p) mod 2 ^ 64)%Z).
+    c11_al_elementAt s (Z.to_nat (((n mod c11_size_t_mod) + Z.of_nat p) mod c11_size_t_mod)%Z).
   (* the secondary read paths the drivers use after every operation: begin()[i]; mid[i - m] for mid = begin() + size()/2;
      reverse walk from end() with -- *)
   Fixpoint c11_res_all {A : Type} (l : list (c11_res A)) : c11_res (list A) :=
@@ -177,7 +179,8 @@ Section AL.
     c11_bind (c11_al_rev_walk s (al_size s) (c11_al_end s)) (fun r => C11_ok (rev r)).
 
   (* histories: one list plus one held iterator (absolute position) *)
-  Inductive c11_al_op := AlPush (v : T) | AlErase (k : nat) | AlPurge | AlClear | AlSet (i : nat) (v : T) | AlHold (k : nat).
+  (* AlCopy: continue on a copy of the list (copy construction / copy assignment); iterators into the old object are dropped *)
+  Inductive c11_al_op := AlPush (v : T) | AlErase (k : nat) | AlPurge | AlClear | AlSet (i : nat) (v : T) | AlHold (k : nat) | AlCopy.
   Definition c11_al_world : Type := c11_al * option nat.
   Definition c11_al_obs : Type := nat * list T * option T.       (* size(), contents, *held *)
 
@@ -191,6 +194,7 @@ Section AL.
     | AlClear => C11_ok (c11_al_clear s, None)
     | AlSet i v => c11_bind (c11_al_set s i v) (fun s' => C11_ok (s', h))
     | AlHold k => C11_ok (s, Some (c11_al_begin s + k))
+    | AlCopy => C11_ok (s, None)          (* fixes/C11-9.patch: element-wise copy of every chunk, same start_/size_/capacity_ *)
     end.
 
   (* user protocol: a held iterator is dropped by the user when the documentation says it is invalidated
@@ -283,6 +287,7 @@ Section ALO.
     | AlClear _ => C11_ok (c11_alo_empty, None)
     | AlSet _ i v => c11_bind (c11_alo_assignAt s (alo_start s + i) v) (fun s' => C11_ok (s', h))
     | AlHold _ k => C11_ok (s, Some (alo_start s + k))
+    | AlCopy _ => C11_ok (s, None)
     end.
   Definition c11_alo_contents (s : c11_alo) : c11_res (list T) := c11_alo_read s (alo_start s) (alo_size s).
   Definition c11_alo_held (w : c11_alo_world) : c11_res (option T) :=
@@ -618,7 +623,8 @@ Section LRU.
   Definition c11_lru_resize (s : c11_lru) (n : nat) : c11_res c11_lru := c11_lru_resize_loop (c11_lru_size s) n s.
   Definition c11_lru_clear (s : c11_lru) : c11_lru := C11_mk_lru [] [] (lru_next s).
 
-  Inductive c11_lru_op := LruInsert (k : nat) (v : V) | LruTouch (k : nat) | LruPopFront | LruPopBack | LruResize (n : nat) | LruClear.
+  (* LruCopy: continue on a copy of the cache (fixes/C11-8.patch: list copied, index rebuilt for the copied list) *)
+  Inductive c11_lru_op := LruInsert (k : nat) (v : V) | LruTouch (k : nat) | LruPopFront | LruPopBack | LruResize (n : nat) | LruClear | LruCopy.
   (* result of the op itself: returned reference / exception *)
   Inductive c11_lru_ret := LruVal (v : V) | LruRangeError | LruVoid.
   Definition c11_lru_world : Type := c11_lru * c11_lru_ret.
@@ -631,6 +637,7 @@ Section LRU.
     | LruPopBack => c11_bind (c11_lru_pop_back s) (fun s' => C11_ok (s', LruVoid))
     | LruResize n => c11_bind (c11_lru_resize s n) (fun s' => C11_ok (s', LruVoid))
     | LruClear => C11_ok (c11_lru_clear s, LruVoid)
+    | LruCopy => C11_ok (s, LruVoid)
     end.
   (* ret, size(), front(), back() (when non-empty), find(k) for k < nkeys *)
   Definition c11_lru_obs : Type := c11_lru_ret * nat * option (V * V) * list (option (nat * V)).
